@@ -10,6 +10,7 @@ import (
 	"time"
 
 	quic "github.com/refraction-networking/uquic"
+	tls "github.com/refraction-networking/utls"
 	"github.com/refraction-networking/uquic/internal/verif/simworld"
 	"github.com/refraction-networking/uquic/internal/verif/wiretap"
 	"github.com/refraction-networking/uquic/internal/verifhook"
@@ -73,7 +74,8 @@ func OptionsFor(cc *ConnCase) (Options, error) {
 	case "unil":
 		opt.ClientKind = "unil"
 	default:
-		id, ok := QUICIDs[cc.Client]
+		base, variant, _ := strings.Cut(cc.Client, "~")
+		id, ok := QUICIDs[base]
 		if !ok {
 			return opt, fmt.Errorf("unknown client kind %q", cc.Client)
 		}
@@ -81,10 +83,50 @@ func OptionsFor(cc *ConnCase) (Options, error) {
 		if err != nil {
 			return opt, err
 		}
+		switch variant {
+		case "":
+		case "asym":
+			// small per-stream-type windows that all differ: the peer's sender has to pick the right one for
+			// every stream (QUIC configs of the in-tree endpoints always advertise three equal values)
+			if err := AsymmetricStreamWindows(&spec, 48<<10, 6<<10, 9<<10); err != nil {
+				return opt, err
+			}
+		default:
+			return opt, fmt.Errorf("unknown client variant %q", cc.Client)
+		}
 		opt.ClientKind = "spec"
 		opt.Spec = &spec
 	}
 	return opt, nil
+}
+
+// AsymmetricStreamWindows rewrites the three initial_max_stream_data transport parameters of a spec.
+func AsymmetricStreamWindows(spec *quic.QUICSpec, bidiLocal, bidiRemote, uni uint64) error {
+	for _, ext := range spec.ClientHelloSpec.Extensions {
+		q, ok := ext.(*tls.QUICTransportParametersExtension)
+		if !ok {
+			continue
+		}
+		seen := 0
+		for i, tp := range q.TransportParameters {
+			switch tp.(type) {
+			case tls.InitialMaxStreamDataBidiLocal:
+				q.TransportParameters[i] = tls.InitialMaxStreamDataBidiLocal(bidiLocal)
+				seen++
+			case tls.InitialMaxStreamDataBidiRemote:
+				q.TransportParameters[i] = tls.InitialMaxStreamDataBidiRemote(bidiRemote)
+				seen++
+			case tls.InitialMaxStreamDataUni:
+				q.TransportParameters[i] = tls.InitialMaxStreamDataUni(uni)
+				seen++
+			}
+		}
+		if seen != 3 {
+			return fmt.Errorf("spec has %d of the 3 initial_max_stream_data parameters", seen)
+		}
+		return nil
+	}
+	return fmt.Errorf("spec has no QUIC transport parameters extension")
 }
 
 // RunConnCase executes one case inside the caller's synctest bubble.
